@@ -29,6 +29,10 @@ CLAIMED = {
         text="Trackers.tla models a tracker by its exact sufficient statistics (n, sums, sums of squares, previous state); TLC enumerates every update history in the bounds and emits exact per-chain statistics and the classical R-hat^2 fraction, which ChainTracker, collect_rhat and MultiChainTracker must all reproduce; RhatGrid.tla does the same for collect_rhat over a grid of per-chain summaries with 1..3 parameters; histories of up to 5000 updates (1..8 parameters, 4 element types) are validated report by report by TLC (count, mean, unbiased variance in fixed point, EMA recurrence with weight 0.01 and range [0,1], multi-row envelope).",
         note="Trusted: TLC, fixed-point projection in harness/src/c13.rs, certified 0.99^j table (Pow99.tla). Tolerances: (2+n/256)*2^-12 on means, (4+n/32)*2^-12 on variances; first EMA report only range-checked.",
         ref="DESIGN.md 4.8, 5/C13", technique="TLC-enumerated histories with exact oracle (MC_Trackers, RhatGrid) replayed into the trackers + trace validation of long histories (Trace_Trackers)"),
+    "C16": dict(
+        text="Categorical.tla defines sampling as 'an index of positive probability whose closed cumulative interval contains r'; TLC checks non-emptiness and the quadrature theorem (each index is hit K p_i +- 1 times over the midpoint grid) on every weight vector of length <= 5 over 0..3 and emits the allowed index set for r = 0, 1-ulp, grid midpoints and both sides of every threshold; the real Categorical (f32/f64, 3 unnormalised scalings, vectors up to length 64 with zeros anywhere) is driven with exactly those variates through Categorical::with_rng; logp and normalisation are compared with ln(w_i/W).",
+        note="Trusted: TLC, crafted xoshiro256++ state (variate checked indirectly by the strict cases), float comparison of logp. Exactly at a threshold either neighbour is accepted; a zero-probability index never.",
+        ref="DESIGN.md 4.9, 5/C16", technique="TLC-enumerated weight vectors and variate classes (Categorical.tla) replayed into the real sampler with injected uniforms"),
 }
 
 PENDING_REASON = "check not built yet in this round (planned: see DESIGN.md section 5); not claimed until its TLC + conformance check exists"
